@@ -183,25 +183,18 @@ func (vc *VC) eval(x SExpr, env *Env) SpecVal {
 		return ghostVal(vc.enc.TypeConst(gt), "Type")
 	case SHeap:
 		var h string
-		gt, _, err := vc.w.resolveType(e.T, env.pkg)
-		if (err != nil || gt == nil) && e.T.Pkg != "" && !e.T.Slice {
-			// heap[Struct.field]
-			stT, _, err2 := vc.w.resolveType(&STypeExpr{Name: e.T.Pkg}, env.pkg)
-			if err2 != nil || stT == nil {
-				specFail("heap[%s]: %v", e.T, err2)
-			}
-			obj, index, _ := types.LookupFieldOrMethod(stT, true, env.pkgOf(stT), e.T.Name)
-			if _, ok := obj.(*types.Var); !ok || len(index) != 1 {
-				specFail("heap[%s]: no direct field %s", e.T, e.T.Name)
-			}
-			h = vc.enc.FieldHeap(stT, index[0])
-		} else if err != nil || gt == nil {
-			specFail("heap[%s]: %v", e.T, err)
-		} else if sl, ok := gt.Underlying().(*types.Slice); ok {
-			// heap[[]T]: the element heap of slices of T
-			h = vc.enc.HeapFor(sl.Elem())
+		if stT, idx, ok := vc.w.resolveFieldHeap(e.T, env.pkg); ok && (e.T.Field != "" || !vc.isTypeName(e.T, env)) {
+			h = vc.enc.FieldHeap(stT, idx)
 		} else {
-			h = vc.enc.HeapFor(gt)
+			gt, _, err := vc.w.resolveType(e.T, env.pkg)
+			if err != nil || gt == nil {
+				specFail("heap[%s]: %v", e.T, err)
+			}
+			if sl, ok := gt.Underlying().(*types.Slice); ok {
+				h = vc.enc.HeapFor(sl.Elem())
+			} else {
+				h = vc.enc.HeapFor(gt)
+			}
 		}
 		return ghostVal(vc.heapGet(env.st, h), fmt.Sprintf("(Array Loc %s)", vc.enc.heaps[h]))
 	case SAddr:
@@ -918,4 +911,13 @@ func (vc *VC) applyOpaquePred(p *Pred, vars map[string]SpecVal, env *Env) SpecVa
 		args = append(args, env.st.alloc)
 	}
 	return ghostVal(sx(info.name, args...), "Bool")
+}
+
+
+func (vc *VC) isTypeName(te *STypeExpr, env *Env) bool {
+	if te.Field != "" {
+		return false
+	}
+	gt, _, err := vc.w.resolveType(te, env.pkg)
+	return err == nil && gt != nil
 }
